@@ -2,7 +2,7 @@
    The statements (…_stmt) are spelled out in ProofsProps.v / ProofsCmp.v:
      canon r = den r > 0 /\ gcd (num r) (den r) = 1;  toQ r = num r / den r in Coq's Q;  red = true is Reduce mode. *)
 From Coq Require Import ZArith QArith.
-From C10 Require Import Model ProofsBase ProofsCmp ProofsProps ProofsMisc.
+From C10 Require Import Model ProofsBase ProofsCmp ProofsProps ProofsMisc ProofsOrder ProofsDouble ProofsAlias.
 Local Open Scope Z_scope.
 
 Theorem C10_canonical_zero_is_0_over_1 : Canonical_zero_stmt.        Proof. exact canonical_zero_thm. Qed.
@@ -63,3 +63,32 @@ Theorem C10_print_shows_denominator_iff_not_integer : Print_stmt.     Proof. exa
 Print Assumptions C10_print_shows_denominator_iff_not_integer.
 Theorem C10_operator_mod_is_the_residue : Mod_stmt.                    Proof. exact mod_thm. Qed.
 Print Assumptions C10_operator_mod_is_the_residue.
+(* phase 3: the order on every stored form (canonical or left behind by NoReduce mode), total order, compatibility *)
+Theorem C10_six_operators_are_the_order_of_Q_on_any_stored_form : Operators_any_form_stmt. Proof. exact operators_any_form_thm. Qed.
+Print Assumptions C10_six_operators_are_the_order_of_Q_on_any_stored_form.
+Theorem C10_absCompare_needs_normalised_zero : AbsCompare_needs_normalised_zero_stmt. Proof. exact abscompare_needs_normalised_zero_thm. Qed.
+Print Assumptions C10_absCompare_needs_normalised_zero.
+Theorem C10_total_order : Total_order_stmt.                            Proof. exact total_order_thm. Qed.
+Print Assumptions C10_total_order.
+Theorem C10_order_antisymmetric_on_canonical_forms : Antisymmetric_canonical_stmt. Proof. exact antisymmetric_canonical_thm. Qed.
+Print Assumptions C10_order_antisymmetric_on_canonical_forms.
+Theorem C10_order_compatible_with_arithmetic_both_modes : Order_compatible_stmt. Proof. exact order_compatible_thm. Qed.
+Print Assumptions C10_order_compatible_with_arithmetic_both_modes.
+(* phase 3: operator double / operator float *)
+Theorem C10_ieee_division_model_is_round_to_nearest_even : Rne_stmt.  Proof. exact rne_thm. Qed.
+Print Assumptions C10_ieee_division_model_is_round_to_nearest_even.
+Theorem C10_mpz_get_d_model_truncates_to_53_bits : Trunc_bits_stmt.   Proof. exact trunc_bits_thm. Qed.
+Print Assumptions C10_mpz_get_d_model_truncates_to_53_bits.
+Theorem C10_operator_double_is_rounded_quotient_of_truncated_members : To_double_stmt. Proof. exact to_double_thm. Qed.
+Print Assumptions C10_operator_double_is_rounded_quotient_of_truncated_members.
+Theorem C10_operator_float_correctly_rounded_below_2p24 : To_float_stmt. Proof. exact to_float_thm. Qed.
+Print Assumptions C10_operator_float_correctly_rounded_below_2p24.
+Theorem C10_operator_double_not_correctly_rounded_in_general : To_double_not_correctly_rounded_stmt. Proof. exact to_double_not_correctly_rounded_thm. Qed.
+Print Assumptions C10_operator_double_not_correctly_rounded_in_general.
+Theorem C10_double_roundtrip_limited_by_mpz_get_d_range : Double_roundtrip_limit_stmt. Proof. exact double_roundtrip_limit_thm. Qed.
+Print Assumptions C10_double_roundtrip_limited_by_mpz_get_d_range.
+(* phase 3: the field-interface wrappers under every aliasing pattern of r, a, b, c *)
+Theorem C10_qfield_wrappers_exact_under_every_aliasing_pattern : Wrappers_any_alias_stmt. Proof. exact wrappers_any_alias_thm. Qed.
+Print Assumptions C10_qfield_wrappers_exact_under_every_aliasing_pattern.
+Theorem C10_two_step_axpy_wrong_when_r_is_c : Two_step_axpy_refuted_stmt. Proof. exact two_step_axpy_refuted_thm. Qed.
+Print Assumptions C10_two_step_axpy_wrong_when_r_is_c.
